@@ -136,34 +136,44 @@ func (d Degree) Semitone() (Semitone, bool) {
 		return 0, false
 	}
 	if d.Value <= perfect8.Value {
-		if v, ok := degreeSemitoneMap[d]; ok {
-			return v, true
-		}
-
-		for k, v := range degreeSemitoneMap {
-			if k.Value != d.Value {
-				continue
-			}
-			switch {
-			case d.Name == AugmentedDegree && (k.Name == MajorDegree || k.Name == PerfectDegree):
-				return v + 1, true
-			case d.Name == DiminishedDegree && (k.Name == MinorDegree || k.Name == PerfectDegree):
-				return v - 1, true
-			case d.Name == DoublyAugmentedDegree && (k.Name == MajorDegree || k.Name == PerfectDegree):
-				return v + 2, true
-			case d.Name == DoublyDiminishedDegree && (k.Name == MinorDegree || k.Name == PerfectDegree):
-				return v - 2, true
-			}
-		}
-		return 0, false
+		return d.simpleSemitone()
 	}
 
-	e := Degree{
-		Value: d.Value - perfect8.Value + 1, // perfect1 is identical
-		Name:  d.Name,
+	// compound interval: whole octaves plus a simple interval, perfect1 is identical to perfect8
+	var (
+		span    = perfect8.Value - 1
+		octaves = (d.Value - 1) / span
+		e       = Degree{
+			Value: (d.Value-1)%span + 1,
+			Name:  d.Name,
+		}
+	)
+	if v, ok := e.simpleSemitone(); ok {
+		return v + Semitone(octaves)*degreeSemitoneMap[perfect8], true
 	}
-	if v, ok := e.Semitone(); ok {
-		return v + degreeSemitoneMap[perfect8], true
+	return 0, false
+}
+
+// simpleSemitone calculates the semitone of the degree not greater than perfect8.
+func (d Degree) simpleSemitone() (Semitone, bool) {
+	if v, ok := degreeSemitoneMap[d]; ok {
+		return v, true
+	}
+
+	for k, v := range degreeSemitoneMap {
+		if k.Value != d.Value {
+			continue
+		}
+		switch {
+		case d.Name == AugmentedDegree && (k.Name == MajorDegree || k.Name == PerfectDegree):
+			return v + 1, true
+		case d.Name == DiminishedDegree && (k.Name == MinorDegree || k.Name == PerfectDegree):
+			return v - 1, true
+		case d.Name == DoublyAugmentedDegree && (k.Name == MajorDegree || k.Name == PerfectDegree):
+			return v + 2, true
+		case d.Name == DoublyDiminishedDegree && (k.Name == MinorDegree || k.Name == PerfectDegree):
+			return v - 2, true
+		}
 	}
 	return 0, false
 }
